@@ -113,7 +113,8 @@ def flat_prog(
                 # by ONE element each (twz_active=pair[0] / pair[1])
                 pool_ = [0, 1, "", "x", None, True, False]
                 spec["kind"], spec["pair"] = "const", True
-                spec["val"] = {"T": [draw(st.sampled_from(pool_)), draw(st.sampled_from(pool_))]}
+                # (a third of the pairs is a FALSY container whose elements can still be read: see prog.Hollow)
+                spec["val"] = {("H" if chance(draw, 0.33) else "T"): [draw(st.sampled_from(pool_)), draw(st.sampled_from(pool_))]}
             elif none_rate and i not in setup_idx and draw(st.floats(0, 1)) < none_rate:
                 # a side-effect-only function: its result is None (or another falsy constant)
                 spec["kind"], spec["val"] = "const", draw(st.sampled_from([None, None, 0, ""]))
